@@ -264,6 +264,11 @@ def walk_notification_churn(ctx, spec, rng):
         loop = h.loop
         loop.gai_latency = rng.choice((2.0 ** -6, 2.0 ** -5))
         lat = loop.gai_latency
+        if sc % 2:
+            # address look-ups run in a thread pool: they take different times and complete out of order
+            lrng = random.Random(rng.random())
+            loop.gai_latency = lambda host, port, lat=lat, lrng=lrng: lrng.choice((lat / 4, lat / 2, lat, lat, 2 * lat, 3 * lat))
+            ctx.count("churn_scenarios_with_lookups_completing_out_of_order")
 
         class Svc(SV.SimpleService):
             service_id = 0x2323
